@@ -99,7 +99,7 @@ def _materialize_generators(ctx, args):
     """an external consumer (max, sum, sorted, str.join, np.array ...) iterates over a generator argument: evaluate it now"""
     out = []
     for a in args:
-        if isinstance(a, Ref) and isinstance(ctx.cell(a), HGen):
+        if isinstance(a, Ref) and isinstance(ctx.cell(a), (HGen, HGenFn)):
             a = ctx.new_list(iterate(ctx, a))
         out.append(a)
     return out
@@ -113,6 +113,13 @@ def call_ext(ctx, fn, args, kwargs):
         r = model(ctx, args, kwargs)
         if r is not NotImplemented:
             return r
+    if isinstance(obj, np.ufunc) and not kwargs and any(ops._array_cell(ctx, a) is not None for a in args):
+        # a numpy ufunc on arrays of (symbolic) scalars: element-wise with scalar broadcasting, a new array
+        n = max(len(ops._array_cell(ctx, a).items) for a in args if ops._array_cell(ctx, a) is not None)
+        cols = [list(ops._array_cell(ctx, a).items) if ops._array_cell(ctx, a) is not None else [a] * n for a in args]
+        if any(len(c) != n for c in cols):
+            ctx.raise_exc("ValueError", ("operands could not be broadcast together",))
+        return _mk_array(ctx, [call_ext(ctx, fn, [c[i] for c in cols], {}) for i in range(n)])
     if obj is None:
         raise U()(f"call of unavailable external {fn.name}")
     if isinstance(obj, type) and issubclass(obj, BaseException):
@@ -1398,6 +1405,11 @@ def get_item(ctx, o, k):
                 ctx.raise_exc("KeyError", (key,))
             return c.d[key]
         if isinstance(c, HList):
+            if isinstance(k, (np.ndarray, Ext)) and c.items is not None and getattr(c, "is_array", False):
+                # fancy indexing with a concrete index array (e.g. the result of np.argsort on concrete keys)
+                arr = k.obj if isinstance(k, Ext) else k
+                if isinstance(arr, np.ndarray) and arr.ndim == 1 and arr.dtype.kind in "iu":
+                    return _mk_array(ctx, [c.items[_norm_index(ctx, int(i), len(c.items))] for i in arr])
             if isinstance(k, Ref) and isinstance(ctx.cell(k), HList) and c.items is not None and ctx.cell(k).items is not None:
                 if not getattr(c, "is_array", False):
                     ctx.raise_exc("TypeError", ("list indices must be integers or slices, not list",))
@@ -1547,6 +1559,13 @@ def iterate(ctx, v):
                 return []
             c.consumed = True
             return c.thunk()
+        if isinstance(c, HGenFn):
+            out = []
+            while True:
+                kind, x = ctx.gen_next(c)
+                if kind == "stop":
+                    return out
+                out.append(x)
         if isinstance(c, HList):
             if c.items is None:
                 raise U()("iteration over a symbolic-length list without loop contract")
@@ -1796,3 +1815,47 @@ def m_inspect_stack(ctx, args, kw):
 @model(_inspect_mod.getframeinfo)
 def m_inspect_getframeinfo(ctx, args, kw):
     return Ext(_FRAMEINFO)
+
+
+import dataclasses as _dataclasses_mod
+
+
+@model(_dataclasses_mod.replace)
+def m_dataclasses_replace(ctx, args, kw):
+    """dataclasses.replace(obj, **changes): a new instance built by the class from the current field values (the field
+    values themselves are shared, as in CPython) with the given changes"""
+    o = args[0]
+    if not (isinstance(o, Ref) and isinstance(ctx.cell(o), HObj)):
+        return NotImplemented
+    c = ctx.cell(o)
+    names = []
+    for k in reversed(c.cls.linear()):
+        if k.is_dataclass:
+            for n in k.ann:
+                if n not in names:
+                    names.append(n)
+    fields = {n: c.fields[n] for n in names if n in c.fields}
+    fields.update(kw)
+    return ctx.call(c.cls, [], fields)
+
+
+@model(np.linspace)
+def m_np_linspace(ctx, args, kw):
+    """np.linspace(a, b, n) with the end point: a + i*(b-a)/(n-1); only for a concrete count"""
+    if len(args) < 3 or kw or not (isinstance(args[0], Sym) or isinstance(args[1], Sym)) or not isinstance(args[2], int) or args[2] < 1:
+        return NotImplemented
+    a, b, n = args[0], args[1], args[2]
+    ctx.assumed.add("np.linspace(a, b, n): a + i*(b-a)/(n-1) for i = 0..n-1")
+    if n == 1:
+        return _mk_array(ctx, [bi_float(ctx, [a], {})])
+    step = ctx.binop(ast.Div(), ctx.binop(ast.Sub(), b, a), n - 1)
+    return _mk_array(ctx, [ctx.binop(ast.Add(), a, ctx.binop(ast.Mult(), i, step)) for i in range(n)])
+
+
+@model(np.logspace)
+def m_np_logspace(ctx, args, kw):
+    r = m_np_linspace(ctx, args, kw)
+    if r is NotImplemented:
+        return r
+    ctx.assumed.add("np.logspace(a, b, n) = 10 ** np.linspace(a, b, n)")
+    return _mk_array(ctx, [m_power(ctx, [10, x], {}) for x in ctx.cell(r).items])
